@@ -81,6 +81,22 @@ def cpp_checks(oc, out, cd, info, compile_ok):
                     oc.stat("interface_operations_checked")
                     if not any(d["name"] == op.NAME and d["override"] for d in decls):
                         oc.violations.append(dict(what="%s realises %s but does not override %s" % (c.NAME, parent.NAME, op.NAME), **info))
+                # ... and each of them on its own: 'void Get()' and 'void Get() const' are two pure virtual functions; the
+                # operations of the interfaces that interface extends count as well
+                anc, todo = [], [parent]
+                while todo:
+                    p_ = todo.pop()
+                    if p_ in anc:
+                        continue
+                    anc.append(p_)
+                    todo += [classes[i2.CLASS_FROM_ID] for i2 in cd.inheritence.values()
+                             if i2.CLASS_TO_ID == p_.ID and i2.CLASS_FROM_ID in classes and classes[i2.CLASS_FROM_ID].PURE_VIRTUAL_INTERFACE]
+                allops = [op for p_ in anc for op in p_.OPERATIONS]
+                for key in sorted(set((op.NAME, bool(op.IS_CONST)) for op in allops)):
+                    need = sum(1 for op in allops if (op.NAME, bool(op.IS_CONST)) == key)
+                    have = sum(1 for d in decls if (d["name"], d["const"]) == key and d["override"])
+                    if have < need and any(d["name"] == key[0] and d["override"] for d in decls):
+                        oc.violations.append(dict(what="%s realises %s, which declares %d operation(s) %s%s, but overrides only %d of them" % (c.NAME, parent.NAME, need, key[0], " const" if key[1] else "", have), **info))
     bad = []
     for rel in sorted(files):
         if rel.endswith((".h", ".cpp")):
@@ -221,12 +237,15 @@ def run(tier):
     runner = genlib.Runner()        # (parsed_elems re-imports kojen: the runner and sys.modules must name the same modules again)
     with scratch() as base:
         for i in range(70 if thorough else 18):
-            spec = umlsynth.rand_spec(r, wellformed=True, relations=r.random() < 0.85, focus="packed" if i % 3 == 0 else ("twins" if i % 6 == 2 else None))
+            spec = umlsynth.rand_spec(r, wellformed=True, relations=r.random() < 0.85, focus="packed" if i % 3 == 0 else ("twins" if i % 6 == 2 else ("constpair" if i % 6 == 4 else None)))
             if any(c.get("packed") for c in spec["classes"]):
                 oc.stat("synth_models_with_packed_struct")
             backend = r.choice(["uml", "uml", "umlcs"])
             model = dict(kind="uml", backend=backend, project=genlib.BLOB, diagram=spec["diagram"], ns_folders=(r.random() < 0.5) or i % 6 == 2,
                          dclspc=r.choice(["", "MY_API"]), synth=spec)
+            if i % 6 == 4:
+                model["backend"] = backend = "uml"
+                oc.stat("synth_models_with_operations_differing_in_constness_only")
             if i % 6 == 2:
                 model["backend"] = backend = "uml"
                 oc.stat("synth_models_with_like_named_elements_in_two_packages")
